@@ -45,7 +45,10 @@ class BackendPlan(object):
                 inverts the static answer for that one import.
     """
 
-    def __init__(self, available=(), flips=None):
+    def __init__(self, available=(), flips=None, fail_exc='ModuleNotFoundError'):
+        # 'ModuleNotFoundError': the extension was never built; 'ImportError': it is there but cannot be
+        # loaded (ABI mismatch, undefined symbol) - both mean "not importable" to the try-import sites
+        self.fail_exc = fail_exc
         self.available = set(available)
         if self.available & set(NEEDS_GET_TAU) or 'cython_get_tau' in self.available:
             self.available.add('cython_get_tau')
@@ -351,6 +354,10 @@ class World(object):
         if not ok:
             if as_name:
                 raise ImportError("cannot import name %r from 'pyspike.cython'" % short, name='pyspike.cython')
+            if getattr(self.plan, 'fail_exc', '') == 'ImportError':
+                self.plan.fired['import_error_plain'] = self.plan.fired.get('import_error_plain', 0) + 1
+                raise ImportError("%s: undefined symbol (simulated: extension present but not loadable)" % absname,
+                                  name=absname)
             raise ModuleNotFoundError("No module named %r" % absname, name=absname)
         mod = self.compiled[short]
         if self.shadow is not None:
